@@ -404,6 +404,61 @@ impl Check for C16 {
             }
             let _ = std::fs::remove_dir_all(&dir);
         }
+        // output-path history: the driver writes this program to a path to which it wrote a LONGER (and, the other
+        // way round, a shorter) program a moment ago; the file must equal what a path that never existed receives
+        // and what `-o -` prints
+        if index % 32 == 18 && prints[0].starts_with("ok:") {
+            let bin = verif_root().join(".target/repo-bin/release/sylt");
+            if bin.exists() {
+                let dir = verif_root().join(".target").join("runs").join(format!("c16drv-{}-{}", std::process::id(), index));
+                let (_d, _m) = materialise(&dir, &files);
+                let mut long = files.get("main.sy").cloned().unwrap_or_default();
+                long.push_str("\nzpad_history :: fn do\n");
+                for k in 0..60 {
+                    long.push_str(&format!("    print(\"a line of an earlier, longer build {}\")\n", k));
+                }
+                long.push_str("end\n");
+                let _ = std::fs::write(dir.join("main_long.sy"), &long);
+                let run = |args: &[&str]| -> Option<Vec<u8>> {
+                    let mut cmd = std::process::Command::new(&bin);
+                    if no_std {
+                        cmd.arg("--no-std");
+                    }
+                    cmd.args(args).current_dir(&dir);
+                    cmd.output().ok().filter(|o| o.status.success()).map(|o| o.stdout)
+                };
+                let steps = [
+                    run(&["-o", "out.lua", "main_long.sy"]).is_some(),
+                    run(&["-o", "out.lua", "main.sy"]).is_some(),
+                    run(&["-o", "fresh.lua", "main.sy"]).is_some(),
+                    run(&["-o", "grow.lua", "main.sy"]).is_some(),
+                    run(&["-o", "grow.lua", "main_long.sy"]).is_some(),
+                    run(&["-o", "fresh_long.lua", "main_long.sy"]).is_some(),
+                ];
+                let stdout = run(&["-o", "-", "main.sy"]);
+                if steps.iter().all(|x| *x) && stdout.is_some() {
+                    let rd = |n: &str| std::fs::read(dir.join(n)).unwrap_or_default();
+                    let (out, fresh, grow, fresh_long) = (rd("out.lua"), rd("fresh.lua"), rd("grow.lua"), rd("fresh_long.lua"));
+                    st.count("output_path_histories_compared");
+                    if out != fresh || Some(&fresh) != stdout.as_ref() || grow != fresh_long {
+                        st.violation(Violation {
+                            signature: "nondeterministic:output-file-depends-on-what-the-path-held-before".into(),
+                            hazard: None,
+                            case: index,
+                            detail: J::obj()
+                                .with("what", J::s(what))
+                                .with("files", J::Obj(files.iter().map(|(k, v)| (k.clone(), J::s(v.clone()))).collect()))
+                                .with("bytes", J::s(format!("after a longer build: {} | fresh path: {} | -o -: {} | after a shorter build: {} | fresh path (long program): {}", out.len(), fresh.len(), stdout.map(|s| s.len()).unwrap_or(0), grow.len(), fresh_long.len()))),
+                        });
+                    }
+                } else {
+                    st.count("output_path_histories_not_run(driver_failed)");
+                }
+                let _ = std::fs::remove_dir_all(&dir);
+            } else {
+                st.count("output_path_histories_skipped(no_driver_binary)");
+            }
+        }
         // cross-process: 1 case in 8
         if index % 8 < 2 {
             let root = verif_root().join(".target").join("runs");
@@ -483,9 +538,12 @@ impl Check for C16 {
         if st.get("compilations_in_fresh_processes") < 100 {
             inconclusive.push("too few cross-process compilations".into());
         }
+        if st.get("output_path_histories_compared") < 10 {
+            inconclusive.push(format!("only {} output-path histories were run through the driver (is the sylt binary built?)", st.get("output_path_histories_compared")));
+        }
         Finish {
             level: "exploration",
-            rule: "projects: valid generated programs extended with wide blobs/enums and a function full of computed-and-dropped pure expressions; invalid projects with 2-6 independent errors (in one blob, one enum, several blobs, one function, several functions, duplicate globals, several files, definitions colliding with preamble imports, unresolved names with equally close candidates). Each is compiled 8x in one process (every HashMap gets a fresh RandomState), with other projects of 1-4 files compiled in between (nothing of an earlier compilation may leak into the next), and, for 1 case in 4, 3x in fresh processes with different environment size and working directory; for 1 invalid project in 4 the project is also written to disk paths that held another invalid project a moment earlier in the same process, and its rendered errors (which read the files) must equal those of a fresh process. Fingerprint = Lua bytes, or the ordered list of (kind, file, span, Display, Debug) of the errors with ANSI colours stripped. Non-trivial: every project; distinct by content hash.".into(),
+            rule: "projects: valid generated programs extended with wide blobs/enums and a function full of computed-and-dropped pure expressions; invalid projects with 2-6 independent errors (in one blob, one enum, several blobs, one function, several functions, duplicate globals, several files, definitions colliding with preamble imports, unresolved names with equally close candidates). Each is compiled 8x in one process (every HashMap gets a fresh RandomState), with other projects of 1-4 files compiled in between (nothing of an earlier compilation may leak into the next), and, for 1 case in 4, 3x in fresh processes with different environment size and working directory; for 1 invalid project in 4 the project is also written to disk paths that held another invalid project a moment earlier in the same process, and its rendered errors (which read the files) must equal those of a fresh process. For 1 accepted project in 32 the built driver writes the program to an output path that held a longer (and a shorter) build result a moment before: the file must equal the one written to a fresh path and the bytes of `-o -`. Fingerprint = Lua bytes, or the ordered list of (kind, file, span, Display, Debug) of the errors with ANSI colours stripped. Non-trivial: every project; distinct by content hash.".into(),
             extra: J::obj(),
             assumptions: vec!["colour codes are environment-controlled by design and are stripped".into()],
             exhaustive: false,
